@@ -7,6 +7,13 @@ demos = sys.argv[8:]
 d = os.path.join('/verif/seeded', sid)
 os.makedirs(d, exist_ok=True)
 patch = subprocess.run(['git', '-C', wt, 'diff'], capture_output=True, text=True).stdout
+# new (untracked) source files are not in `git diff`: prefer the agent's own patch.diff when it names more files
+agent_patch = os.path.join(wt, 'seed', 'patch.diff')
+if os.path.exists(agent_patch):
+    ap = open(agent_patch).read()
+    import re
+    if set(re.findall(r'^\+\+\+ b/(\S+)', ap, re.M)) > set(re.findall(r'^\+\+\+ b/(\S+)', patch, re.M)):
+        patch = ap
 open(os.path.join(d, 'patch.diff'), 'w').write(patch)
 for f in demos:
     shutil.copy(os.path.join(wt, f), os.path.join(d, os.path.basename(f)))
